@@ -67,7 +67,7 @@ def gen_case(rng, strategies=ALL, max_m=20, max_n=24, integer_ok=True):
     integer = integer_ok and rng.random() < 0.2
     x, y = gen_series(rng, m, integer=integer)
     c = {"strategy": s, "n": n, "x": [str(v) for v in x], "y": [str(v) for v in y], "int_x": integer,
-         "objhist": rng.choice(["same", "same", "same", "scribble", "refill"])}
+         "objhist": rng.choice(["same", "same", "same", "scribble", "refill", "reenter"])}
     if s in WINDOW:
         if rng.random() < 0.6:
             c["alpha"] = str(Fraction(rng.randint(1, 16), 16))
@@ -147,6 +147,30 @@ def run_impl(c):
         xs2, ys2 = obj.rfa()
         same = (len(xs2) == len(kx) and len(ys2) == len(ky) and np.array_equal(np.asarray(xs2, dtype=float), kx)
                 and np.array_equal(np.asarray(ys2, dtype=float), ky, equal_nan=True))
+        if oh == "reenter" and same:
+            # ... nor on a call that is made by another thread on the SAME object while this one is under way
+            # (one preemption at a chosen line, see harness/preempt.py)
+            from . import preempt
+            firsts = []
+            _, nl = preempt.count_lines(obj.rfa, firsts)
+            inner = {}
+
+            def other():
+                inner["r"] = obj.rfa()
+            for p in preempt.positions(nl, 10, f"{s}-{n}-{len(x)}", firsts):
+                inner.clear()
+                try:
+                    (xs3, ys3), fired = preempt.run_preempted(obj.rfa, other, p)
+                    rs = [(xs3, ys3)] + ([inner["r"]] if "r" in inner else [])
+                    ok = "r" in inner or not fired
+                except Exception:  # noqa
+                    rs, ok = [], False
+                for (u, v) in rs:
+                    ok = ok and (len(u) == len(kx) and len(v) == len(ky) and np.array_equal(np.asarray(u, dtype=float), kx)
+                                 and np.array_equal(np.asarray(v, dtype=float), ky, equal_nan=True))
+                if not ok:
+                    same = False
+                    break
         xs, ys = kx if isinstance(xs, np.ndarray) else xs, ky if isinstance(ys, np.ndarray) else ys
     except Exception as e:  # noqa
         return {"err": err_kind(e)}
@@ -264,7 +288,8 @@ def compare(c, io, mo, kinds):
     m = len(x)
     relaxed = 0
     if io.get("second_call_same") is False:
-        return "calling rfa() a second time on the same strategy object returns a different result"
+        return ("calling rfa() again on the same strategy object (after the first call, after an in-place edit of the returned "
+                "arrays, or from a second thread while the first call is under way) returns a different result or fails")
     for kind, ans in zip(kinds, mo):
         if kind == "params":
             if "err" in io:
